@@ -961,6 +961,13 @@ def _read_header_batch(
     except RpcError:
         _drain_stream(reader)
         raise
+    except Exception:
+        # The caller's on_log callback raised.  Its exception propagates, but
+        # the rest of the header stream is still in flight: consume it so the
+        # next call on the connection starts at a stream boundary.
+        with contextlib.suppress(Exception):
+            _drain_stream(reader)
+        raise
     _drain_stream(reader)
     return resolve_external_location(batch, cm, external_config, on_log, ipc_validation)
 
@@ -1104,6 +1111,14 @@ def _read_unary_response(
         batch = _read_batch_with_log_check(reader, on_log, external_config, shm=shm)
     except RpcError:
         _drain_stream(reader)
+        raise
+    except Exception:
+        # The caller's on_log callback raised (or the stream is unusable).  The
+        # exception propagates, but the result batch and the end-of-stream
+        # marker are still in flight: consume them so the next call on the
+        # connection starts at a stream boundary.
+        with contextlib.suppress(Exception):
+            _drain_stream(reader)
         raise
     try:
         _drain_stream(reader)
